@@ -45,29 +45,22 @@ func init() {
 	RegisterCheck("C01", func(c *Ctx) {
 		c.Level = "exploration"
 		c.Rule = "DFS over all schedules within the preemption bound of concurrent CallTool/GetPrompt/ReadResource on real clients and servers (every transport/mode); an execution is distinct by (per-call outcome, handler invocation order, wire response order); plus complete enumeration of id classes x transports and of the back-pressure sizes"
-		c.Assume = append(c.Assume, "net/http and OS pipes replaced by memnet", "handshake prelude runs under the default schedule", "quick: 2 callers, preemptions<=2 (1 for legacy SSE and stdio); thorough adds 3 callers, 2 calls per caller, two clients")
+		c.Assume = append(c.Assume, "net/http and OS pipes replaced by memnet", "handshake prelude runs under the default schedule", "sleep-set partial-order reduction (DESIGN 2.8): a class of executions that differ only in the order of independent transitions is explored once; data-race freedom of plain memory is assumed for the reduction (C20 checks it)", "quick: 2 callers P<=2, mixed kinds and two clients P<=1; thorough: P<=4 / 3 callers / 2 calls per caller P<=3")
 		c.Enumerate("c01/ids")
 		c.Enumerate("c01/backpressure")
 		for _, mode := range []string{"sj", "ss", "sl", "sd", "ls", "io"} {
-			heavy := mode == "ls" || mode == "io" // many more threads per call: the free-switch tree alone is 10^4
-			pb := 2
-			if heavy {
-				pb = c.Pick(0, 1)
-			}
-			c.DFS(fmt.Sprintf("c01/%s/1c-2x1", mode), explore.Bounds{Preempt: pb, Dev: 1})
-			if !heavy {
-				c.DFS(fmt.Sprintf("c01/%s/mixed", mode), explore.Bounds{Preempt: c.Pick(0, 1), Dev: 1})
-			} else if !c.Quick() {
-				c.DFS(fmt.Sprintf("c01/%s/mixed", mode), explore.Bounds{Preempt: 0, Dev: 1})
+			c.DFS(fmt.Sprintf("c01/%s/1c-2x1", mode), explore.Bounds{Preempt: c.Pick(2, 4), Dev: c.Pick(1, 2), POR: true})
+			c.DFS(fmt.Sprintf("c01/%s/mixed", mode), explore.Bounds{Preempt: c.Pick(1, 3), Dev: 1, POR: true})
+			if mode != "io" {
+				c.DFS(fmt.Sprintf("c01/%s/2c-1x1", mode), explore.Bounds{Preempt: c.Pick(1, 3), Dev: 1, POR: true})
 			}
 			if !c.Quick() {
-				c.DFS(fmt.Sprintf("c01/%s/1c-3x1", mode), explore.Bounds{Preempt: 1, Dev: 1})
-				c.DFS(fmt.Sprintf("c01/%s/1c-2x2", mode), explore.Bounds{Preempt: 1, Dev: 1})
-				if mode != "io" {
-					c.DFS(fmt.Sprintf("c01/%s/2c-1x1", mode), explore.Bounds{Preempt: 2, Dev: 1})
-				}
+				c.DFS(fmt.Sprintf("c01/%s/1c-3x1", mode), explore.Bounds{Preempt: 3, Dev: 1, POR: true})
+				c.DFS(fmt.Sprintf("c01/%s/1c-2x2", mode), explore.Bounds{Preempt: 3, Dev: 1, POR: true})
 			}
 		}
+		// one plain (no reduction) exploration as a cross-check of the reduced ones
+		c.DFS("c01/sj/1c-2x1", explore.Bounds{Preempt: c.Pick(1, 2), Dev: 0})
 	})
 }
 
@@ -155,7 +148,7 @@ func c01Run(prefix []int, cfg c01Cfg) explore.Outcome {
 	obs := &hx.Log{}
 	calls := &hx.Log{}
 	order := &hx.Log{}
-	res := vsched.Run(vsched.Config{Prefix: prefix}, func() {
+	res := vsched.Run(cfgFor(prefix), func() {
 		vsched.SetBranching(false)
 		r := NewRig(cfg.mode)
 		r.EchoTool(calls)
